@@ -161,3 +161,18 @@ Proof.
   apply select_limit_pre.
   pose proof (bound_fplan_le (List.length (sdata st)) fp). lia.
 Qed.
+
+(* consequence: every call of the limited run is, at the same index, a call of the unlimited run
+   (so the limited run reads no key the unlimited run does not read, and a fault index that is
+   reached by the limited run is reached by the unlimited run at the same call) *)
+Corollary limit_calls_same_index_lemma :
+  forall (remember_end : bool) (flt : kvp -> bool) (gkey : kvp -> bytes) (B fuel : nat)
+         (start count : nat) (fp : fplan) (st : sstate) (i : nat) (c : scall),
+  List.length (sdata st) + fplan_keys fp < fuel ->
+  nth_error (slog (snd (ScanIO.run_stmt remember_end flt gkey B fuel RowMode (StSelect (FLimit start count fp)) st))) i = Some c ->
+  nth_error (slog (snd (ScanIO.run_stmt remember_end flt gkey B fuel RowMode (StSelect fp) st))) i = Some c.
+Proof.
+  intros remember_end flt gkey B fuel start count fp st i c Hf Hn.
+  destruct (limit_calls_prefix_row_lemma remember_end flt gkey B start count fp st Hf) as [l ->].
+  rewrite nth_error_app1; [exact Hn|]. apply nth_error_Some. congruence.
+Qed.
